@@ -84,8 +84,39 @@ def run(rep, tier):
                                                                     if "lock_sharable" in lc else "the job file is not locked exclusively on every path"), lk.loc(), sample=True)
     want_rel = {"lock": "unlock", "lock_sharable": "unlock_sharable"}.get(lc[0] if lc else "", "unlock")
     rep.check(rc == [want_rel] and rc == ["unlock"], "R10.2", "matching-unlock", "ReleaseProgFile releases with unlock()", "ProgObserver::ReleaseProgFile calls file_lock::%s (lock side: %s)" % (rc, lc), rl.loc(), sample=True)
+    # the lock must be taken on the object owned by flock_, after it was installed there: replacing flock_ destroys the previous
+    # file_lock object, and closing any descriptor of the file releases every POSIX lock the process holds on it
+    installs = [n for n in lk.walk() if n.get("k") == "opcall" and n.get("op") == "=" and unwrap(n["args"][0]).get("fname") == "flock_"] + \
+               [n for n in lk.walk() if n.get("k") == "mcall" and (n.get("callee") or "").endswith("unique_ptr::reset") and unwrap(n["obj"]).get("fname") == "flock_"]
+    locks = [n for n in flock_calls(lk) if n["callee"].endswith("::lock")]
+    ok = len(locks) == 1 and bool(installs)
+    if ok:
+        recv = unwrap(locks[0]["obj"])
+        def from_flock(n, depth=0):
+            n = unwrap(n)
+            while n is not None and depth < 10:
+                depth += 1
+                if n.get("k") == "member":
+                    return n.get("fname") == "flock_"
+                if n.get("k") == "opcall" and n.get("op") in ("->", "*"):
+                    n = unwrap(n["args"][0])
+                elif n.get("k") == "unop" and n.get("op") == "*":
+                    n = unwrap(n["sub"])
+                elif n.get("k") == "mcall" and (n.get("callee") or "").endswith("::get"):
+                    n = unwrap(n["obj"])
+                elif n.get("k") == "ref" and n.get("decl") in lk.decls and lk.decls[n["decl"]].get("init") is not None and \
+                        (lk.decls[n["decl"]].get("type") or "").rstrip().endswith(("&", "*")):
+                    n = unwrap(lk.decls[n["decl"]]["init"])
+                else:
+                    return False
+            return False
+        ok = from_flock(recv) and all(gl.dominates(i_["id"], locks[0]["id"]) for i_ in installs if i_["id"] in gl.where)
+    rep.check(ok, "R10.2", "lock-on-owned-object", "lock() is called on the file_lock owned by flock_, after flock_ was (re)assigned",
+              "ProgObserver::LockProgFile takes the lock before/on an object other than the one installed in flock_: installing it afterwards destroys the "
+              "previous file_lock, whose close() drops every POSIX lock of this process on the job file - the lock just taken is lost", lk.loc(), sample=True)
     newl = [n for n in lk.walk() if n.get("k") == "new" and "file_lock" in (n.get("type") or "")]
-    rep.check(len(newl) == 1 and "lockFile_" in show(newl[0].get("init")), "R10.2", "lock-object", "lock object created on lockFile_", "LockProgFile does not create the lock on lockFile_", lk.loc())
+    mk = [n for n in lk.walk() if n.get("k") == "call" and (n.get("callee") or "").startswith("std::make_unique") and "file_lock" in (n.get("type") or "")]
+    rep.check((len(newl) == 1 and "lockFile_" in show(newl[0].get("init"))) or (len(mk) == 1 and "lockFile_" in show(mk[0])), "R10.2", "lock-object", "lock object created on lockFile_", "LockProgFile does not create the lock on lockFile_", lk.loc())
     for name, floor_io in (("SyncWithProgFile", 3), ("InitFromProgFile", 2)):
         f = fn(name)
         rep.analysed(f)
